@@ -455,7 +455,7 @@ def rule_R5(ctx, f):
                         if si2 and si2[0][0] == "discr" and SELF_FIELD("labels") in list(subterms(si2[0][1])):
                             skip = 1 if is_call(peel(si2[0][1], transparent=[]), "Try::branch") else 0    # Break arm of `?` on the Option / None arm of `if let`
                             guard_edges += [(bi, t) for v, t in si2[1] if v == skip] + ([(bi, si2[2])] if not any(v == skip for v, t in si2[1]) else [])
-                    okp = all(hs and n.bb not in r.reach(body_entry, avoid_blocks=hs, avoid_edges=guard_edges) for hs in (direct_hdr.get("const_label_pairs"), direct_hdr.get("variable_labels")))
+                    okp = all(hs and n.bb not in r.reach_ps(body_entry, avoid_blocks=hs, avoid_edges=set(guard_edges)) for hs in (direct_hdr.get("const_label_pairs"), direct_hdr.get("variable_labels")))
                     ctx.ob(rid, "register|clash-check-every-descriptor", okp, "with common labels every descriptor must pass the clash check (both label kinds)", site=r.raw["span"]["at"])
         if clash_call is not None:
             # on every iteration of the descriptor loop
@@ -474,7 +474,7 @@ def rule_R5(ctx, f):
                                 and peel(peel(si2[0][1], transparent=[])[2][0], transparent=["Option::as_ref", "Option::as_deref"]) == SELF_FIELD("labels"):
                             # `self.labels.as_ref()?` in an Option-returning helper: the Break arm is "no common labels"
                             guard_edges += [(bi, t) for v, t in si2[1] if v == 1] + ([(bi, si2[2])] if not any(v == 1 for v, t in si2[1]) else [])
-                    okp = n.bb not in r.reach(body_entry, avoid_blocks=[clash_call.bb], avoid_edges=guard_edges)
+                    okp = n.bb not in r.reach_ps(body_entry, avoid_blocks=[clash_call.bb], avoid_edges=set(guard_edges))
                     ctx.ob(rid, "register|clash-check-every-descriptor", okp, "with common labels every descriptor must pass the clash check", site=clash_call.span)
 
 
